@@ -546,6 +546,19 @@ class GraphPartitioningA(Adapter):
         self.P = lib(qv.problems.GraphPartitioning, arg, what="GraphPartitioning")
         self.k = len(self.V)
         self.own_bruteforce = False
+        # the documented attribute "degree: the maximum degree of the graph" enters the threshold of the statement.  Judged
+        # on simple graphs only (no repeated label, no edge given in both orientations), where the degree of a vertex
+        # has one meaning
+        pairs = {(u, v) for u, v, _ in self.edges}
+        if len(self.proper) == len(self.edges) and not any((v, u) in pairs for u, v in pairs):
+            deg = {}
+            for u, v, _ in self.proper:
+                deg[u] = deg.get(u, 0) + 1
+                deg[v] = deg.get(v, 0) + 1
+            want = max(deg.values()) if deg else 0
+            got = lib(getattr, self.P, "degree", what="degree")
+            if got != want:
+                self.bad("degree_attribute", "degree = %r, the maximum degree of the graph is %r" % (got, want))
 
     def threshold(self, B):
         if self.weighted:
